@@ -2,7 +2,8 @@
 //!
 //! Oracle (round trip + invariants, no reference tokenizer needed):
 //!   * `decode(encode(t).token_ids()) == t`;
-//!   * `token_offsets()` has one entry per token, is non-decreasing, every
+//!   * `token_offsets()` (one entry per token, optionally one trailing end
+//!     entry) is non-decreasing, every
 //!     offset is <= len(t) and a char boundary of t;
 //!   * `text_for_token_range(i..i+1)` is `Some` for every token and the slices
 //!     concatenate to t.
